@@ -33,6 +33,17 @@ Lemma flat_map_seq_S : forall A (f : nat -> list A) k,
   flat_map f (seq 0 (S k)) = f 0 ++ flat_map (fun d => f (S d)) (seq 0 k).
 Proof. intros. simpl. f_equal. rewrite (flat_map_seq_shift _ f 1 k). reflexivity. Qed.
 
+Lemma map_flat_map : forall A B C (f : B -> C) (g : A -> list B) l,
+  map f (flat_map g l) = flat_map (fun x => map f (g x)) l.
+Proof. induction l; simpl; [reflexivity|]. now rewrite map_app, IHl. Qed.
+
+Lemma flat_map_ext_In : forall A B (f g : A -> list B) l,
+  (forall x, In x l -> f x = g x) -> flat_map f l = flat_map g l.
+Proof.
+  induction l; simpl; intros H; [reflexivity|].
+  rewrite (H a) by now left. rewrite IHl; [reflexivity|]. intros; apply H; now right.
+Qed.
+
 Lemma firstn_seq0 : forall s n, s <= n -> firstn s (seq 0 n) = seq 0 s.
 Proof.
   intros. replace n with (s + (n - s)) by lia. rewrite seq_app.
@@ -200,10 +211,8 @@ Section Default.
     replace (a * T + T) with (S a * T) by lia. rewrite IHshots.
     f_equal. simpl Nat.mul. rewrite seq_app, flat_map_app, map_app. f_equal.
     - rewrite (flat_map_seq_shift _ (loop_bin N T cs) (a * T) T).
-      destruct (Nat.eq_dec T 0) as [->|HT]; [reflexivity|].
-      rewrite flat_map_concat_map, concat_map, map_map, <- flat_map_concat_map.
-      apply flat_map_ext_in || idtac.
-      rewrite !flat_map_concat_map. f_equal. apply map_ext_in. intros d Hd. apply in_seq in Hd.
+      destruct (Nat.eq_dec T 0) as [HT|HT]; [rewrite HT; reflexivity|].
+      rewrite map_flat_map. apply flat_map_ext_In. intros d Hd. apply in_seq in Hd.
       rewrite <- bin_out_loop by assumption. simpl.
       replace ((a * T + d) mod T) with d; [reflexivity|].
       rewrite Nat.add_comm, Nat.mod_add by assumption. symmetry. apply Nat.mod_small. lia.
@@ -218,3 +227,286 @@ Section Default.
     rewrite <- (qform_0 N 0). exact (run_shots_default shots 0).
   Qed.
 End Default.
+
+(* ---------------------------------------------------------------- integer shift of the whole register *)
+Section IntShift.
+  Variable N : list nat.     (* irrelevant for an integer shift *)
+  Variable n s T : nat.
+  Variable cs : list rcmd.
+  Hypothesis Hs : s <= n.
+  Hypothesis Hplain : all_plain cs.
+  Hypothesis Hregs : Forall (fun c => Forall (fun r => r < n) (r_regs c)) cs.
+
+  Definition qint (g : nat) : list nat := map (fun o => 0 + (o + s * g) mod n) (seq 0 n).
+
+  Lemma qint_0 : qint 0 = seq 0 n.
+  Proof.
+    unfold qint. rewrite <- (map_id (seq 0 n)) at 2. apply map_ext_in. intros o Ho. apply in_seq in Ho.
+    rewrite Nat.mul_0_r, Nat.add_0_r. simpl. apply Nat.mod_small. lia.
+  Qed.
+
+  Lemma get_modes_qint : forall g c, Forall (fun r => r < n) (r_regs c) ->
+    get_modes c (qint g) = map (fun j => j mod n) (map (fun r => r + s * g) (r_regs c)).
+  Proof.
+    intros g c H. unfold get_modes, qint. rewrite map_map. apply map_ext_in. intros r Hr.
+    rewrite Forall_forall in H. rewrite nth_map_seq by (apply H; exact Hr). reflexivity.
+  Qed.
+
+  Definition bin_out_int (i g : nat) : list (ucmd nat) :=
+    map (fun c => spec_op T c (get_modes c (qint g)) i) cs.
+
+  Lemma run_bins_int : forall k i g prev,
+    run_bins N (ShInt (Z.of_nat s)) false T cs k i (qint g) prev
+    = Some (flat_map (fun d => bin_out_int (i + d) (g + d)) (seq 0 k), qint (g + k)).
+  Proof.
+    induction k; intros i g prev.
+    - simpl. now rewrite Nat.add_0_r.
+    - cbv beta iota delta [run_bins]. fold run_bins.
+      rewrite run_cmds_shift_plain by exact Hplain.
+      unfold shift_step. unfold qint at 1. rewrite rotate_closed_form by exact Hs. fold (qint (S g)).
+      rewrite IHk. rewrite flat_map_seq_S. rewrite !Nat.add_0_r.
+      replace (S g + k) with (g + S k) by lia. f_equal. f_equal. f_equal.
+      apply flat_map_ext. intros d. f_equal; lia.
+  Qed.
+
+  Lemma bin_out_int_loop : forall g,
+    bin_out_int (g mod T) g = map (rename (fun j => j mod n)) (loop_bin_int s T cs g).
+  Proof.
+    intros g. unfold bin_out_int, loop_bin_int. rewrite map_map.
+    apply map_ext_in. intros c Hc. unfold rename, spec_op. simpl.
+    rewrite Forall_forall in Hregs. rewrite get_modes_qint by (apply Hregs; exact Hc). reflexivity.
+  Qed.
+
+  Lemma run_shots_int : forall shots a,
+    run_shots N (ShInt (Z.of_nat s)) false T cs shots (qint (a * T))
+    = Some (map (rename (fun j => j mod n)) (flat_map (loop_bin_int s T cs) (seq (a * T) (shots * T)))).
+  Proof.
+    induction shots; intros a; [reflexivity|].
+    cbv beta iota delta [run_shots]. fold run_shots.
+    rewrite run_bins_int.
+    replace (a * T + T) with (S a * T) by lia. rewrite IHshots.
+    f_equal. simpl Nat.mul. rewrite seq_app, flat_map_app, map_app. f_equal.
+    - rewrite (flat_map_seq_shift _ (loop_bin_int s T cs) (a * T) T).
+      destruct (Nat.eq_dec T 0) as [HT|HT]; [rewrite HT; reflexivity|].
+      rewrite map_flat_map. apply flat_map_ext_In. intros d Hd. apply in_seq in Hd.
+      rewrite <- bin_out_int_loop. simpl.
+      replace ((a * T + d) mod T) with d; [reflexivity|].
+      rewrite Nat.add_comm, Nat.mod_add by assumption. symmetry. apply Nat.mod_small. lia.
+    - f_equal. f_equal. f_equal. lia.
+  Qed.
+
+  Theorem shift_int_refines_loop : forall shots,
+    unroll_program N (ShInt (Z.of_nat s)) false T cs shots (seq 0 n)
+    = Some (map (rename (fun j => j mod n)) (loop_program_int s T cs shots)).
+  Proof.
+    intros shots. unfold unroll_program, loop_program_int.
+    rewrite <- qint_0. exact (run_shots_int shots 0).
+  Qed.
+End IntShift.
+
+(* ---------------------------------------------------------------- space unrolling, one band, one shot *)
+Lemma list_min_le : forall l x, In x l -> list_min l <= x.
+Proof.
+  induction l as [|a l IH]; intros x H; [destruct H|].
+  destruct l as [|b l'].
+  - destruct H as [->|[]]. simpl. lia.
+  - change (list_min (a :: b :: l')) with (Nat.min a (list_min (b :: l'))).
+    destruct H as [->|H]; [apply Nat.le_min_l|].
+    etransitivity; [apply Nat.le_min_r|]. apply IH. exact H.
+Qed.
+
+Lemma run_cmds_space_plain : forall T t q cs prev, all_plain cs ->
+  Forall2 (fun c p => Forall (fun m => p <= m) (get_modes c q)) cs prev ->
+  run_cmds true T t q cs prev
+  = Some (map (fun c => spec_op T c (get_modes c q) t) cs, map (fun c => list_min (get_modes c q)) cs).
+Proof.
+  induction cs; intros prev Hp H.
+  - inversion H; subst. reflexivity.
+  - inversion H as [|c0 y cs0 l' Hy Hrest]; subst. simpl.
+    inversion Hp as [|c1 cs1 Hpa Hpr]; subst.
+    assert (E : existsb (fun m => m <? y) (get_modes a q) = false).
+    { apply not_true_is_false. intros C. apply existsb_exists in C. destruct C as [m [Hm Hlt]].
+      apply Nat.ltb_lt in Hlt. rewrite Forall_forall in Hy. specialize (Hy m Hm). lia. }
+    rewrite E. simpl. rewrite apply_op_plain by assumption.
+    rewrite (IHcs l') by assumption. reflexivity.
+Qed.
+
+Section Space.
+  Variable N : list nat.
+  Variable sh : shiftspec.
+  Variable n T : nat.
+  Variable cs : list rcmd.
+  Hypothesis Hn : 0 < n.
+  Hypothesis Hplain : all_plain cs.
+  Hypothesis Hregs : Forall (fun c => Forall (fun r => r < n) (r_regs c)) cs.
+
+  Let L := n + (T - 1).
+  Let qs (g : nat) := qint L 1 g.
+
+  Lemma regs_lt_L : Forall (fun c => Forall (fun r => r < L) (r_regs c)) cs.
+  Proof.
+    eapply Forall_impl; [|exact Hregs]. intros c Hc. eapply Forall_impl; [|exact Hc].
+    intros r Hr. unfold L. simpl in *. lia.
+  Qed.
+
+  Lemma modes_space : forall g c, g < T -> In c cs ->
+    get_modes c (qs g) = map (fun r => r + 1 * g) (r_regs c).
+  Proof.
+    intros g c Hg Hc. unfold qs. pose proof regs_lt_L as HL. rewrite Forall_forall in HL.
+    rewrite get_modes_qint by (apply HL; exact Hc). rewrite map_map.
+    apply map_ext_in. intros r Hr. rewrite Forall_forall in Hregs. specialize (Hregs c Hc).
+    rewrite Forall_forall in Hregs. specialize (Hregs r Hr). apply Nat.mod_small. unfold L. lia.
+  Qed.
+
+  Definition inv (g : nat) (prev : list nat) : Prop :=
+    Forall2 (fun c p => forall r, In r (r_regs c) -> p <= r + g) cs prev.
+
+  Lemma inv_modes : forall g prev, g < T -> inv g prev ->
+    Forall2 (fun c p => Forall (fun m => p <= m) (get_modes c (qs g))) cs prev.
+  Proof.
+    intros g prev Hg H. unfold inv in H.
+    assert (G : forall l prev', (forall c, In c l -> In c cs) ->
+              Forall2 (fun c p => forall r, In r (r_regs c) -> p <= r + g) l prev' ->
+              Forall2 (fun c p => Forall (fun m => p <= m) (get_modes c (qs g))) l prev').
+    { induction l; intros prev' Hin F; inversion F; subst; constructor.
+      - rewrite modes_space by (auto; apply Hin; now left). apply Forall_forall. intros m Hm.
+        apply in_map_iff in Hm. destruct Hm as [r [<- Hr]]. specialize (H2 r Hr). lia.
+      - apply IHl; [intros; apply Hin; now right|assumption]. }
+    apply G; auto.
+  Qed.
+
+  Lemma inv_step : forall g, g < T ->
+    inv (S g) (map (fun c => list_min (get_modes c (qs g))) cs).
+  Proof.
+    intros g Hg. unfold inv.
+    assert (G : forall l, (forall c, In c l -> In c cs) ->
+      Forall2 (fun c p => forall r, In r (r_regs c) -> p <= r + S g) l (map (fun c => list_min (get_modes c (qs g))) l)).
+    { induction l; intros Hin; simpl; constructor.
+      - intros r Hr. rewrite modes_space by (auto; apply Hin; now left).
+        etransitivity; [apply (list_min_le _ (r + 1 * g))|lia].
+        apply in_map_iff. exists r. split; [reflexivity|exact Hr].
+      - apply IHl. intros; apply Hin; now right. }
+    apply G; auto.
+  Qed.
+
+  Lemma inv_0 : inv 0 (map (fun _ => 0) cs).
+  Proof.
+    unfold inv. generalize cs as l. induction l; simpl; constructor; [intros; lia|assumption].
+  Qed.
+
+  Lemma run_bins_space : forall k g prev, g + k <= T -> inv g prev ->
+    run_bins N sh true T cs k g (qs g) prev
+    = Some (flat_map (fun d => loop_bin_int 1 T cs (g + d)) (seq 0 k), qs (g + k)).
+  Proof.
+    induction k; intros g prev Hk Hinv.
+    - simpl. now rewrite Nat.add_0_r.
+    - cbv beta iota delta [run_bins]. fold run_bins.
+      rewrite run_cmds_space_plain; [|exact Hplain|apply inv_modes; [lia|exact Hinv]].
+      unfold shift_step.
+      assert (HL : 1 <= L) by (unfold L; lia).
+      replace (if true then shift_by (qs g) 1 else match sh with ShDefault => shift_bands N (qs g) | ShInt s => shift_by (qs g) s end)
+        with (qs (S g))
+        by (unfold qs, qint; symmetry; exact (rotate_closed_form 0 L 1 g HL)).
+      rewrite IHk; [|lia|apply inv_step; lia].
+      rewrite flat_map_seq_S. rewrite !Nat.add_0_r.
+      replace (S g + k) with (g + S k) by lia. f_equal. f_equal. f_equal.
+      + unfold loop_bin_int. apply map_ext_in. intros c Hc.
+        rewrite modes_space by (auto; lia). rewrite Nat.mod_small by lia. reflexivity.
+      + apply flat_map_ext. intros d. f_equal; lia.
+  Qed.
+
+  Theorem space_unroll_is_loop :
+    unroll_program N sh true T cs 1 (seq 0 (n + (T - 1))) = Some (loop_program_int 1 T cs 1).
+  Proof.
+    unfold unroll_program, loop_program_int. cbv beta iota delta [run_shots].
+    fold L. rewrite <- (qint_0 L 1). fold (qs 0).
+    rewrite run_bins_space; [|lia|apply inv_0].
+    - simpl Nat.add. rewrite Nat.mul_1_l, app_nil_r. reflexivity.
+    - unfold L. lia.
+  Qed.
+End Space.
+
+(* ---------------------------------------------------------------- re-use of a register reference *)
+Lemma band_of_offset : forall N r, r < sum_list N ->
+  snd (band_of N r) < nth (fst (band_of N r)) N 1.
+Proof.
+  induction N; intros r Hr; simpl in Hr; [lia|].
+  simpl. destruct (r <? a) eqn:E.
+  - apply Nat.ltb_lt in E. simpl. exact E.
+  - apply Nat.ltb_ge in E. specialize (IHN (r - a) ltac:(lia)).
+    destruct (band_of N (r - a)) as [b o]. simpl in *. exact IHN.
+Qed.
+
+Lemma same_residue_gap : forall n j j', 0 < n -> j < j' -> j mod n = j' mod n -> j + n <= j'.
+Proof.
+  intros n j j' Hn Hlt Hm.
+  pose proof (Nat.div_mod j n ltac:(lia)) as E1. pose proof (Nat.div_mod j' n ltac:(lia)) as E2.
+  rewrite Hm in E1.
+  assert (j / n < j' / n) by nia.
+  nia.
+Qed.
+
+(* Two different pulses of a band that the default shift maps to the same register reference are
+   used in disjoint, ordered windows of time bins, and the earlier pulse sits at the leading
+   position of its band in the bin that separates them (bin j, where it is measured if the rolled
+   circuit measures the leading position of every band last). *)
+Theorem reuse_separated : forall N c c' g g' b j j',
+  Forall (fun r => r < sum_list N) (r_regs c) ->
+  Forall (fun r => r < sum_list N) (r_regs c') ->
+  In (b, j) (pulse_modes N c g) -> In (b, j') (pulse_modes N c' g') ->
+  j < j' -> rho N (b, j) = rho N (b, j') ->
+  g <= j /\ j < g'.
+Proof.
+  intros N c c' g g' b j j' Hc Hc' Hin Hin' Hlt Hrho.
+  unfold pulse_modes in *. apply in_map_iff in Hin. apply in_map_iff in Hin'.
+  destruct Hin as [r [Er Hr]]. destruct Hin' as [r' [Er' Hr']].
+  rewrite Forall_forall in Hc, Hc'.
+  pose proof (band_of_offset N r (Hc r Hr)) as Ho.
+  pose proof (band_of_offset N r' (Hc' r' Hr')) as Ho'.
+  destruct (band_of N r) as [b0 o]. destruct (band_of N r') as [b1 o'].
+  inversion Er; subst. inversion Er'; subst. simpl in *.
+  assert (Hn : 0 < nth b N 1) by lia.
+  apply Nat.add_cancel_l in Hrho.
+  pose proof (same_residue_gap _ _ _ Hn Hlt Hrho). lia.
+Qed.
+
+(* ---------------------------------------------------------------- what the faithful model refutes *)
+Definition ex_cs (dag sel : bool) (p : param) : list rcmd :=
+  [ mkR 0 [PNum 0; PNum 1] [1] false false false true;
+    mkR 1 [p; PNum 1] [0; 1] false dag false true;
+    mkR 2 [PSym 1] [0] true false sel true ].
+
+(* a daggered gate: the unrolled circuit is not the image of the explicit loop *)
+Lemma dagger_refuted : exists cs, regs_ok [2] cs /\
+  unroll_program [2] ShDefault false 3 cs 1 (seq 0 2) <> Some (map (rename (rho [2])) (loop_program [2] 3 cs 1)).
+Proof.
+  exists (ex_cs true false (PSym 0)). split.
+  - repeat constructor.
+  - vm_compute. discriminate.
+Qed.
+
+Lemma select_refuted : exists cs, regs_ok [2] cs /\
+  unroll_program [2] ShDefault false 3 cs 1 (seq 0 2) <> Some (map (rename (rho [2])) (loop_program [2] 3 cs 1)).
+Proof.
+  exists (ex_cs false true (PSym 0)). split.
+  - repeat constructor.
+  - vm_compute. discriminate.
+Qed.
+
+(* a parameter that is an expression in p[0]: unrolling fails altogether *)
+Lemma expr_refuted : exists cs, regs_ok [2] cs /\ unroll_program [2] ShDefault false 3 cs 1 (seq 0 2) = None.
+Proof. exists (ex_cs false false (PExpr 0 0)). split; [repeat constructor|reflexivity]. Qed.
+
+(* an operation whose class cannot be rebuilt from op.p (Fouriergate) *)
+Lemma ctor_refuted : exists cs, regs_ok [2] cs /\ unroll_program [2] ShDefault false 3 cs 1 (seq 0 2) = None.
+Proof. exists [mkR 3 [PNum 0] [1] false false false false]. split; [repeat constructor|reflexivity]. Qed.
+
+(* space unrolling for two shots is not the explicit loop over 2*timebins pulses *)
+Lemma space_shots_refuted : exists cs, all_plain cs /\ Forall (fun c => Forall (fun r => r < 2) (r_regs c)) cs /\
+  unroll_program [2] ShDefault true 3 cs 2 (seq 0 (2 + (3 - 1))) <> Some (loop_program_int 1 3 cs 2).
+Proof.
+  exists (ex_cs false false (PSym 0)). split; [|split].
+  - repeat constructor.
+  - repeat constructor.
+  - vm_compute. discriminate.
+Qed.
